@@ -12,6 +12,7 @@ import (
 	"os/exec"
 	"runtime"
 	"runtime/debug"
+	"sort"
 	"strconv"
 	"strings"
 	"sync"
@@ -63,7 +64,9 @@ func num(w string) (uint64, bool) {
 // ---- part trees --------------------------------------------------------------------------------------
 
 type ptree struct {
-	kind      byte // h, x, b, n
+	kind      byte   // h, x, b, n
+	gen       bool   // blob written as r<seed>:<len>:… (generated content)
+	seed      uint64 // of a generated blob
 	data      []byte
 	off, size uint64
 	sub       []*ptree
@@ -135,6 +138,25 @@ func (p *parser) part() (*ptree, bool) {
 		}
 		s, ok := p.num()
 		return &ptree{kind: 'b', data: d, off: o, size: s}, ok
+	case 'r':
+		p.i++
+		seed, ok := p.num()
+		if !ok || !p.expect(':') {
+			return nil, false
+		}
+		l, ok := p.num()
+		if !ok || !p.expect(':') {
+			return nil, false
+		}
+		o, ok := p.num()
+		if !ok || !p.expect(':') {
+			return nil, false
+		}
+		if l > 4194304 {
+			return nil, false
+		}
+		s, ok := p.num()
+		return &ptree{kind: 'b', gen: true, seed: seed, data: genBlob(seed, int(l)), off: o, size: s}, ok
 	case 'n':
 		p.i++
 		o, ok := p.num()
@@ -175,6 +197,31 @@ func (p *parser) parts() ([]*ptree, bool) {
 	}
 }
 
+// genBlob: the content of a generated blob (the model's driver computes the same bytes).
+func genBlob(seed uint64, n int) []byte {
+	b := make([]byte, n)
+	for i := range b {
+		b[i] = byte((seed + uint64(i)) % 1048576 * 2654435761 / 65536)
+	}
+	return b
+}
+
+func fnv32(b []byte) uint32 {
+	h := uint32(2166136261)
+	for _, x := range b {
+		h = (h ^ uint32(x)) * 16777619
+	}
+	return h
+}
+
+// showBytes: hex up to 64 bytes, "#<len>.<fnv32>" beyond.
+func showBytes(b []byte) string {
+	if len(b) <= 64 {
+		return hk.Hex(b)
+	}
+	return fmt.Sprintf("#%d.%d", len(b), fnv32(b))
+}
+
 func parseEnc(s string) ([]*ptree, bool) {
 	if s == "-" {
 		return nil, true
@@ -204,7 +251,11 @@ func encList(ts []*ptree) string {
 		case 'h', 'x':
 			fmt.Fprintf(&sb, "%c%d", t.kind, t.size)
 		case 'b':
-			fmt.Fprintf(&sb, "b%s:%d:%d", hk.Hex(t.data), t.off, t.size)
+			if t.gen {
+				fmt.Fprintf(&sb, "r%d:%d:%d:%d", t.seed, len(t.data), t.off, t.size)
+			} else {
+				fmt.Fprintf(&sb, "b%s:%d:%d", hk.Hex(t.data), t.off, t.size)
+			}
 		case 'n':
 			fmt.Fprintf(&sb, "n%d:%d[%s]", t.off, t.size, encList(t.sub))
 		}
@@ -575,15 +626,15 @@ func (s *recStore) ReceiveBlob(ctx context.Context, br blob.Ref, src io.Reader) 
 }
 
 type writeResult struct {
-	out     string // the protocol answer
-	data    []byte
-	sto     *recStore
-	ref     blob.Ref
-	eofFrom int
-	reads   int
-	leaves  []uint64 // sizes of the raw chunks in order
-	nBytes  int      // number of bytes schema blobs
-	depth   int
+	out       string // the protocol answer
+	data      []byte
+	sto       *recStore
+	ref       blob.Ref
+	eofFrom   int
+	reads     int
+	leaves    []uint64 // sizes of the raw chunks in order
+	nBytes    int      // number of bytes schema blobs
+	depth     int
 	chunkRefs []blob.Ref // the raw chunks in content (= upload) order
 	bytesRefs []blob.Ref // the bytes schema blobs, children before parents, left to right
 }
@@ -983,15 +1034,44 @@ func (e *env) exec(w []string) string {
 			}
 			got, err = e.fr.Read(p)
 		}
-		return hk.Hex(p[:got]) + " " + errName(err)
+		return showBytes(p[:got]) + " " + errName(err)
+	case "seqread":
+		if len(w) != 4 {
+			return "bad-op"
+		}
+		pos, ok1 := num(w[1])
+		buf, ok2 := num(w[2])
+		mx, ok3 := num(w[3])
+		if !ok1 || !ok2 || !ok3 || buf == 0 || buf > maxReadLen || mx > maxReadLen {
+			return "bad-op"
+		}
+		if _, err := e.fr.Seek(int64(pos), io.SeekStart); err != nil {
+			return "err"
+		}
+		p := make([]byte, buf)
+		var acc []byte
+		reads := 0
+		var err error
+		for {
+			var n int
+			n, err = e.fr.Read(p)
+			acc = append(acc, p[:n]...)
+			reads++
+			if err != nil || uint64(len(acc)) >= mx || n == 0 {
+				break
+			}
+		}
+		return fmt.Sprintf("%s %s reads=%d", showBytes(acc), errName(err), reads)
 	case "foreach":
 		if len(w) != 1 {
 			return "bad-op"
 		}
 		var items []string
 		err := e.fr.ForeachChunk(ctxbg, func(_ []blob.Ref, p schema.BytesPart) error {
-			if p.BlobRef.Valid() {
-				items = append(items, fmt.Sprintf("b%s:%d:%d", hk.Hex(e.datas[p.BlobRef]), p.Offset, p.Size))
+			if d := e.datas[p.BlobRef]; p.BlobRef.Valid() && len(d) > 64 {
+				items = append(items, fmt.Sprintf("s%d.%d:%d:%d", len(d), fnv32(d), p.Offset, p.Size))
+			} else if p.BlobRef.Valid() {
+				items = append(items, fmt.Sprintf("b%s:%d:%d", hk.Hex(d), p.Offset, p.Size))
 			} else {
 				items = append(items, fmt.Sprintf("h%d", p.Size))
 			}
@@ -1200,7 +1280,7 @@ func (g *gen) readerCase(ts []*ptree, exhaustive bool) {
 		if kind == "seekread" && off < size && wn > size-off {
 			wn = size - off // a Read never reports more than is left
 		}
-		exp := hk.Hex(sliceOf(want, off, wn)) + " " + wantErr(size, off, wn)
+		exp := showBytes(sliceOf(want, off, wn)) + " " + wantErr(size, off, wn)
 		if got != exp {
 			sig := kind + "-differs"
 			if midPartOverrun(ts, off) {
@@ -1236,9 +1316,31 @@ func (g *gen) readerCase(ts []*ptree, exhaustive bool) {
 		items, _, _ := strings.Cut(fo, " ")
 		var cat []byte
 		if items != "-" {
-			leaves, ok := parseEnc(items)
-			if ok {
-				cat = denote(leaves)
+			big := map[string][]byte{} // "<len>.<fnv32>" -> content of the tree's long blobs
+			var walk func(ts []*ptree)
+			walk = func(ts []*ptree) {
+				for _, t := range ts {
+					if t.kind == 'b' && len(t.data) > 64 {
+						big[fmt.Sprintf("%d.%d", len(t.data), fnv32(t.data))] = t.data
+					}
+					walk(t.sub)
+				}
+			}
+			walk(ts)
+			for _, it := range strings.Split(items, ",") {
+				if strings.HasPrefix(it, "s") {
+					f := strings.Split(it[1:], ":")
+					d, ok := big[f[0]]
+					if !ok || len(f) != 3 {
+						cat = nil
+						break
+					}
+					o, _ := num(f[1])
+					sz, _ := num(f[2])
+					cat = append(cat, denote([]*ptree{{kind: 'b', data: d, off: o, size: sz}})...)
+				} else if leaves, ok := parseEnc(it); ok {
+					cat = append(cat, denote(leaves)...)
+				}
 			}
 		}
 		if !bytes.Equal(cat, want) || !strings.HasSuffix(fo, " nil") {
@@ -1246,6 +1348,204 @@ func (g *gen) readerCase(ts []*ptree, exhaustive bool) {
 		}
 		r.Hit("foreach:full-tree")
 	}
+}
+
+// leafSpans: where the leaves of a (well-formed) tree become visible in the top-level byte stream:
+// emit(start of the whole leaf in top-level coordinates (may be negative), its size, visible [lo,hi), kind).
+func leafSpans(ts []*ptree, base, lo, hi int64, emit func(start, size, vlo, vhi int64, kind byte)) {
+	pos := base
+	for _, t := range ts {
+		a, b := pos, pos+int64(t.size)
+		vlo, vhi := max(a, lo), min(b, hi)
+		if t.kind == 'n' {
+			if vlo < vhi {
+				leafSpans(t.sub, a-int64(t.off), vlo, vhi, emit)
+			}
+		} else if vlo < vhi && t.kind == 'b' {
+			emit(a-int64(t.off), int64(len(t.data)), vlo, vhi, 'b')
+		} else if vlo < vhi {
+			emit(a, int64(t.size), vlo, vhi, t.kind)
+		}
+		pos = b
+	}
+}
+
+// bigReaderCase: a well-formed tree with parts that cross buffer-size boundaries (holes and blobs of
+// 4 KiB … > 1 MiB): reads that start before, at and beyond every boundary inside every leaf and that
+// cross the leaf's end, through ReadAt, Seek+Read, sequential Read with several buffer sizes, ReadAll.
+func (g *gen) bigReaderCase(ts []*ptree, label string) {
+	r := g.r
+	enc := encParts(ts)
+	treeOp := "tree " + enc
+	if !wellFormed(ts) {
+		panic("bigReaderCase: ill-formed " + enc)
+	}
+	size := sumSizes(ts)
+	out := g.op(treeOp)
+	if out != fmt.Sprintf("ok size=%d", size) {
+		r.Fail("tree-size", "FileReader.Size differs from the sum of part sizes", fmt.Sprint(size), out, []string{treeOp})
+		return
+	}
+	want := denote(ts)
+	r.Distinct("tree:" + enc)
+	r.Hit("bigtree:" + label)
+	r.Hit(fmt.Sprintf("rtree:depth%d", treeDepth(ts)))
+	check := func(line, exp, cls string) {
+		got := g.op(line)
+		if got != exp {
+			r.Fail(cls, fmt.Sprintf("%s on %s", line, enc), exp, got, []string{treeOp, line})
+		}
+	}
+	readAt := func(off, n uint64) {
+		check(fmt.Sprintf("readat %d %d", off, n), showBytes(sliceOf(want, off, n))+" "+wantErr(size, off, n), "readat-differs-large-part")
+	}
+	seekRead := func(off, n uint64) {
+		wn := n
+		if off < size && wn > size-off {
+			wn = size - off
+		}
+		check(fmt.Sprintf("seekread %d %d", off, n), showBytes(sliceOf(want, off, wn))+" "+wantErr(size, off, wn), "seekread-differs-large-part")
+	}
+	seqRead := func(pos, buf, mx uint64) {
+		// reference: Read fills the buffer until the end; then one more Read reports EOF
+		var acc []byte
+		reads, p, e := 0, pos, "nil"
+		for {
+			reads++
+			if p >= size {
+				e = "eof"
+				break
+			}
+			k := min(buf, size-p)
+			acc = append(acc, want[p:p+k]...)
+			p += k
+			if uint64(len(acc)) >= mx {
+				break
+			}
+		}
+		check(fmt.Sprintf("seqread %d %d %d", pos, buf, mx), fmt.Sprintf("%s %s reads=%d", showBytes(acc), e, reads), "seqread-differs-large-part")
+	}
+	// interesting offsets: around every boundary q inside every leaf, and around the leaf's visible ends
+	offs := map[uint64]bool{0: true}
+	addOff := func(o int64) {
+		if o >= 0 && uint64(o) <= size+1 {
+			offs[uint64(o)] = true
+		}
+	}
+	qs := []int64{1, 4095, 4096, 4097, 32767, 32768, 32769, 65535, 65536, 65537, 100000, 131072, 262144, 1<<20 - 1, 1 << 20, 1<<20 + 1}
+	leafSpans(ts, 0, 0, int64(size), func(start, sz, vlo, vhi int64, kind byte) {
+		for _, q := range qs {
+			if o := start + q; o >= vlo && o < vhi {
+				addOff(o)
+				if kind == 'h' && q >= 65536 {
+					r.Hit("bigtree:read-starts-64KiB-or-more-into-a-hole")
+				}
+			}
+			if o := vlo + q; o < vhi { // relative to where the leaf is entered
+				addOff(o)
+			}
+		}
+		for _, o := range []int64{vlo - 1, vlo, vlo + 1, vhi - 2, vhi - 1, vhi} {
+			addOff(o)
+		}
+		if kind == 'h' && sz > 65536 {
+			r.Hit("bigtree:hole-over-64KiB")
+		}
+		if kind == 'b' && sz > 65536 {
+			r.Hit("bigtree:blob-over-64KiB")
+		}
+	})
+	var sorted []uint64
+	for o := range offs {
+		sorted = append(sorted, o)
+	}
+	sort.Slice(sorted, func(i, j int) bool { return sorted[i] < sorted[j] })
+	for i, o := range sorted {
+		readAt(o, 1)
+		readAt(o, 7)
+		readAt(o, 4097)
+		seekRead(o, 5)
+		if i%2 == 0 {
+			readAt(o, 66000)
+			seekRead(o, 70001)
+		}
+		if i%7 == 3 {
+			readAt(o, 140000)
+		}
+	}
+	// the whole file and long ranges crossing everything
+	readAt(0, size)
+	readAt(0, size+1)
+	if size > 3 {
+		readAt(1, size-2)
+		mid := sorted[len(sorted)/2]
+		readAt(mid, size)
+		seekRead(mid, size)
+	}
+	for _, buf := range []uint64{1000, 4096, 32768, 65536, 100000, 1 << 20} {
+		if size/buf > 400 {
+			continue
+		}
+		seqRead(0, buf, maxReadLen)
+	}
+	seqRead(sorted[len(sorted)/3], 50000, 200000)
+	seqRead(sorted[2*len(sorted)/3], 65536, 65536*3)
+	// io.ReadAll / io.Copy on the real reader
+	e := &env{}
+	e.setTree(ts)
+	back, err := io.ReadAll(e.fr)
+	r.ImplOnly("readall-large-part-tree")
+	if err != nil || !bytes.Equal(back, want) {
+		r.Fail("readall-differs-large-part", fmt.Sprintf("io.ReadAll on %s: %d bytes, err %v", enc, len(back), err), fmt.Sprint(size), fmt.Sprint(len(back)), []string{treeOp, fmt.Sprintf("seqread 0 512 %d", maxReadLen)})
+	}
+	if size > 70000 {
+		var buf bytes.Buffer
+		e.fr.Seek(int64(size/3), io.SeekStart)
+		_, err := io.Copy(&buf, e.fr)
+		r.ImplOnly("copy-from-seek-large-part-tree")
+		if err != nil || !bytes.Equal(buf.Bytes(), want[size/3:]) {
+			r.Fail("copy-differs-large-part", fmt.Sprintf("Seek(%d)+io.Copy on %s: %d bytes, err %v", size/3, enc, buf.Len(), err), fmt.Sprint(size-size/3), fmt.Sprint(buf.Len()), []string{treeOp, fmt.Sprintf("seqread %d 32768 %d", size/3, maxReadLen)})
+		}
+	}
+	g.op("foreach")
+}
+
+// bigTrees: the shapes around one hole of hs bytes, and trees of blobs crossing 64 KiB / 1 MiB.
+func (g *gen) bigTrees() {
+	r := g.r
+	small := func(n int) *ptree {
+		d := make([]byte, n)
+		for i := range d {
+			d[i] = byte(1 + r.R.Intn(250))
+		}
+		return &ptree{kind: 'b', data: d, size: uint64(n)}
+	}
+	hole := func(n uint64) *ptree { return &ptree{kind: 'h', size: n} }
+	nest := func(off, size uint64, sub ...*ptree) *ptree { return &ptree{kind: 'n', off: off, size: size, sub: sub} }
+	sizes := []uint64{4095, 4096, 4097, 32767, 32768, 32769, 65535, 65536, 65537, 100000, 300000, 1<<20 + 5, 1200000}
+	for _, hs := range sizes {
+		shapes := map[string][]*ptree{
+			"hole-between-blobs":                     {small(5), hole(hs), small(4)},
+			"hole-in-nested-bytes-entered-at-offset": {nest(min(65536+5, hs-1), hs+8-min(65536+5, hs-1)-1, hole(hs), small(8))},
+			"hole-two-levels-deep":                   {small(3), nest(2, 4+hs+4+9-2-3, small(4), nest(1, hs+4, hole(hs), small(6)), hole(9))},
+		}
+		if hs > 65000 || r.Thorough() {
+			shapes["hole-alone"] = []*ptree{hole(hs)}
+			shapes["hole-first-adjacent-holes"] = []*ptree{hole(hs), hole(7), small(3)}
+			shapes["hole-last-adjacent-holes"] = []*ptree{small(6), hole(3), hole(hs)}
+			shapes["hole-inside-nested-bytes"] = []*ptree{small(4), nest(3, hs+5, small(5), hole(hs), small(5)), small(2)}
+		}
+		for _, k := range hk.SortedKeys(shapes) {
+			g.bigReaderCase(shapes[k], k)
+		}
+	}
+	gb := func(seed uint64, n int, off, size uint64) *ptree {
+		return &ptree{kind: 'b', gen: true, seed: seed, data: genBlob(seed, n), off: off, size: size}
+	}
+	s := uint64(r.R.Intn(1_000_000))
+	g.bigReaderCase([]*ptree{gb(s, 70000, 3, 69990), hole(65540), gb(s+1, 1<<20+3, 65536, 1<<20+3-65536-1), small(3)}, "blobs-over-64KiB-and-1MiB")
+	g.bigReaderCase([]*ptree{nest(65530, 1100000, gb(s+2, 66000, 0, 66000), gb(s+3, 1<<20+1, 0, 1<<20+1), hole(70000)), small(2)}, "nested-bytes-over-1MiB-entered-at-64KiB")
+	g.bigReaderCase([]*ptree{gb(s+4, 131072, 65535, 2), gb(s+5, 65536, 0, 65536), gb(s+6, 65537, 1, 65536), hole(65536), gb(s+7, 300000, 100000, 200000)}, "blob-parts-at-exact-64KiB-sizes")
 }
 
 type writeCase struct {
@@ -1629,7 +1929,7 @@ func Run(r *hk.Run) {
 	// neighbouring seeds would generate almost the same cases: re-seed from a mixed output.
 	r.R = hk.NewRand(r.R.U64() ^ 0xC15C15C15)
 	rnd := r.R
-	r.Res.Rule = "cases: (a) WriteFileFromReader for lengths around 0/1/64KiB/256KiB/1MiB(+multiples) x content kinds (zero, const, random, rollsum-dense windows, mixed) x reader fragmentations (plain, 1-byte, short reads, data+EOF); (b) generated part trees (depth<=3, offsets, sub-ranges, holes, nested bytes; some ill-formed) x every (off,len) through ReadAt, Seek+Read, ForeachChunk; (a') the same writes through a blob server whose ReceiveBlob refuses selected blobs: each chunk position (first, middle, last), each bytes schema blob, the file blob, immediately and delayed until after the source reported EOF, single and several, also through WriteFileChunks; (c) static sets for limit M in 3..10 and the shipped limit, member counts around M, M^2, M^3. distinct = distinct (content kind, reader, length) writes + distinct trees + distinct (M, count); non-trivial = a write of >= 1 byte, a tree with >= 1 part, a set with > M members"
+	r.Res.Rule = "cases: (a) WriteFileFromReader for lengths around 0/1/64KiB/256KiB/1MiB(+multiples) x content kinds (zero, const, random, rollsum-dense windows, mixed) x reader fragmentations (plain, 1-byte, short reads, data+EOF); (b) generated part trees (depth<=3, offsets, sub-ranges, holes, nested bytes; some ill-formed) x every (off,len) through ReadAt, Seek+Read, ForeachChunk; (b') hand-shaped trees with one hole of 4095..1200000 bytes (alone, first, last, adjacent to holes and blobs, inside nested bytes blobs entered at an offset, two levels deep) and trees of generated blobs crossing 64 KiB / 1 MiB: ReadAt / Seek+Read at every buffer-size boundary inside every leaf (1, 4 KiB, 32 KiB, 64 KiB, 100000, 128 KiB, 256 KiB, 1 MiB, each -1/+1) with lengths 1..140000 and to the end, sequential Read with buffers 1000..1 MiB, io.ReadAll, Seek+io.Copy; (a') the same writes through a blob server whose ReceiveBlob refuses selected blobs: each chunk position (first, middle, last), each bytes schema blob, the file blob, immediately and delayed until after the source reported EOF, single and several, also through WriteFileChunks; (c) static sets for limit M in 3..10 and the shipped limit, member counts around M, M^2, M^3. distinct = distinct (content kind, reader, length) writes + distinct trees + distinct (M, count); non-trivial = a write of >= 1 byte, a tree with >= 1 part, a set with > M members"
 
 	// ---- (a) writer ----
 	const K = 1 << 10
@@ -1737,6 +2037,10 @@ func Run(r *hk.Run) {
 	}
 	r.Sample(map[string]any{"kind": "reader", "ops": r.CaseOps()[:min(3, len(r.CaseOps()))]})
 
+	// ---- (b') reader over trees whose parts cross buffer-size boundaries ----
+	r.Case("reader-large-parts")
+	g.bigTrees()
+
 	// ---- (c) static sets ----
 	r.Case("static-sets")
 	ms := []int{3, 4, 5, 7}
@@ -1777,7 +2081,7 @@ func Run(r *hk.Run) {
 	r.Case("malformed")
 	for _, l := range []string{"", "tree", "tree h", "tree h3,", "tree b61:0", "tree b6:0:1", "tree B61:0:1", "tree n0:1[h1", "tree n0:1[h1,]",
 		"tree h1,,h1", "tree h1]", "tree h1234567890123", "readat", "readat 1", "readat -1 2", "readat 1 x", "readat 0 16777217", "readat 1_0 1",
-		"seekread 1", "foreach 1", "chunks", "chunks rand:1 p 10 - 11:13", "chunks rand:1 p 10 - 5:13,5:14", "chunks rand:1 p 10 x -",
+		"seekread 1", "seqread", "seqread 0 0 5", "seqread 0 1 16777217", "seqread 0 16777217 1", "seqread x 1 1", "tree r1:4194305:0:1", "tree r1:5:0", "tree r1:5:0:5,", "tree s5.1:0:1", "foreach 1", "chunks", "chunks rand:1 p 10 - 11:13", "chunks rand:1 p 10 - 5:13,5:14", "chunks rand:1 p 10 x -",
 		"chunks rand:1 p 10 - 5", "chunks rand:1 p 67108865 - -", "chunksf rand:1 p 10 - - c", "chunksf rand:1 p 10 - - c0,,f", "chunksf rand:1 p 10 - - c0,c1,c2,c3,c4,c5,c6,c7,c8", "chunksf rand:1 p 10 - - z1", "chunksf rand:1 p 10 - -", "sset", "sset 3", "sset 3 x", "sset 3 262145", "frobnicate 1 2", "tree h2", "readat 0 2"} {
 		g.op(l)
 	}
